@@ -1312,6 +1312,13 @@ func c18RunCase(out *vh.Out, op string) {
 				if !ann {
 					m = "Internal server error"
 				}
+				if c18StartsWithNumbers(m) {
+					if _, hasE := c18Ench(n); n.Kind != "R" && (!hasE || wantSt[1:] == ".0.0") {
+						out.Stat("q.report.text.begins-with-dotted-numbers.no-enhanced-code")
+					} else {
+						out.Stat("q.report.text.begins-with-dotted-numbers.other")
+					}
+				}
 				switch {
 				case vdsn.BareCR(m):
 					out.Stat("q.report.text.bare-cr")
@@ -1338,6 +1345,12 @@ func c18RunCase(out *vh.Out, op string) {
 					}
 					if !strings.Contains(dg[0], fmt.Sprintf("; %d ", code)) {
 						viol("diagnostic-not-last-error", fmt.Sprintf("Diagnostic-Code %q, last error code %d", dg[0], code))
+					} else if want := fmt.Sprintf("smtp; %d %s %s", code, wantSt, m); vdsn.CanonWs(dg[0]) != vdsn.CanonWs(want) {
+						// round 11: with the basic code known the whole field is determined: the reply code, the
+						// status of the group, then the text of the error - ALL of it (a text that itself begins
+						// with "550 " or "5.1.1 " keeps that beginning; the suffix test above cannot see it cut
+						// off when the cut-off part equals the code / status in front)
+						viol("diagnostic-not-last-error", fmt.Sprintf("Diagnostic-Code %q, the last error says %q", dg[0], want))
 					}
 				}
 			} else {
@@ -1566,11 +1579,57 @@ var c18Msgs = []string{
 	"multi  space   text", "emoji \U0001F4E7 here", strings.Repeat("long diagnostic text ", 12) + "end", "\u0080 edge ~", "ASCII only ~",
 }
 
+// c18CodeLikeTexts: error texts whose beginning (or whole) reads like a number group - see c18Sanitise.
+var c18CodeLikeTexts = []string{
+	"192.0.2.25 is listed in our block list", "198.51.100.7", "10.1.2 is the minimum client version", "2001:db8::25 is listed",
+	"4.2.2 Mailbox full", "5.1.1 User unknown", "5.7.1 relaying denied, see 203.0.113.9", "2.0.0 nonsense: this was a failure", "0.0.0 no class",
+	"5.1.1", "4.0.0", "7.7.7 class seven", "999.1000.70000 out of range", "5.1.1.1 four numbers", "5.1 two numbers", "5.1. dangling dot",
+	"550 5.1.1 code repeated in the text", "550 no such user", "550-5.1.1 first line\r\n550 5.1.1 second line", "554", "3 attempts left",
+	" 5.2.2 leading blank", "5.2.2\tthen a tab", "5.2.2\nsecond line", "+5.1.1 signed", "-5.1.1 negative", "05.01.01 padded", "5 .1.1 spaced",
+	"\uff15.\uff11.\uff11 full-width digits", "1.2.3-beta build refused the message", "#5.1.1 smtp; 550 nested diagnostic", "smtp; 550 5.1.1 looks like a Diagnostic-Code",
+	"X-Postfix; 4.4.1 connection timed out", "[192.0.2.1] said: 550 5.7.1 rejected", "5.7.1 \u043e\u0442\u043a\u0430\u0437\u0430\u043d\u043e", "4.2.2\rbare CR after a code",
+}
+
+// c18StartsWithNumbers: three dot-separated integers in front (what fmt.Sscanf("%d.%d.%d") takes).
+func c18StartsWithNumbers(m string) bool {
+	m = strings.TrimLeft(m, " \t\r\n")
+	if m != "" && (m[0] == '+' || m[0] == '-') {
+		m = m[1:]
+	}
+	for i := 0; i < 3; i++ {
+		j := 0
+		for j < len(m) && m[j] >= '0' && m[j] <= '9' {
+			j++
+		}
+		if j == 0 {
+			return false
+		}
+		m = m[j:]
+		if i < 2 {
+			if m == "" || m[0] != '.' {
+				return false
+			}
+			m = m[1:]
+		}
+	}
+	return true
+}
+
 // c18Sanitise (the name is historical): gives the nodes of a generated error the texts of this
 // harness - ordinary ones and vdsn.NastyTexts (bare CR, CR CR LF, LF CR, NUL, other controls, DEL,
 // white space at the ends, long lines); verr's own texts (incl. DEL) stay otherwise.
 func c18Sanitise(r *vh.Rng, n *verr.Node) {
 	for ; n != nil; n = n.Inner {
+		// round 11: reply texts that BEGIN like something else - an IPv4 address, a version number,
+		// an enhanced status code (of the same / the other class, of no class at all, out of range),
+		// a basic code, signed / padded / full-width digits: the text of a reply is text, whatever it
+		// looks like; more often on an annotation WITHOUT an enhanced code (next hop without
+		// ENHANCEDSTATUSCODES), where a "helpful" reading of the text has room to act
+		noEnch := (n.Kind == "S" || n.Kind == "W" || n.Kind == "R" || (n.Kind == "F" && n.HasM && !n.HasE)) && (n.Kind == "F" || n.Ench[0] == 0)
+		if (noEnch && r.Chance(35)) || r.Chance(6) {
+			n.Msg = c18CodeLikeTexts[r.Intn(len(c18CodeLikeTexts))]
+			continue
+		}
 		switch k := r.Intn(100); {
 		case k < 22:
 			n.Msg = c18Msgs[r.Intn(len(c18Msgs))]
